@@ -334,12 +334,10 @@ def loopify(facts, fn, blk, known):
 
 MATCH_COMBINATORS = {
     # callee -> (variant whose payload goes to the closure, does the closure's result become the whole result?)
+    # Only the two that can *replace* an error by another computation are rewritten; `map` / `map_err` / the Option twins
+    # have closure models in the interval analysis and in the value-fate analysis that a rewrite would bypass.
     'core::result::Result::or_else': ('Err', True),
     'core::result::Result::and_then': ('Ok', True),
-    'core::result::Result::map': ('Ok', False),
-    'core::result::Result::map_err': ('Err', False),
-    'core::option::Option::and_then': ('Some', True),
-    'core::option::Option::map': ('Some', False),
 }
 VARIANT_INDEX = {'Ok': 0, 'Err': 1, 'None': 0, 'Some': 1}
 
